@@ -114,7 +114,7 @@ PROPS = {
     },
     "C18": {
         "modules": ["C18"],
-        "streams": [{"name": "apply", "quick": 80, "thorough": 1200}],
+        "streams": [{"name": "mint", "quick": 120, "thorough": 1500}, {"name": "apply", "quick": 30, "thorough": 400}],
         "projection": "speed",
         "oracles": [],
         "assumptions": ["MelPoW verification is a parameter: the verdict for the puzzle (header at the coin's height, coin id) is computed by the harness from the specification with the real melpow and shipped to the model"],
